@@ -85,29 +85,33 @@ theorem C04_holdsOn_partial (ops : List Op) (h : CaseGood init ops) : holdsOn (r
 
 
 /-- the hypothesis of `C04_holdsOn_partial` is met by a non-trivial case: two files with an
-    overlapping, partly duplicate key (t = 2 in both), compacted with size 2 -/
+    overlapping, partly duplicate key (t = 2 in both), a range delete on the newer file, a cache
+    write with a duplicate timestamp, a full compaction with size 2 and a snapshot with size 1 -/
 example : CaseGood init
     [Op.blk 0 [105, 49] [(1,10),(2,11)], Op.blk 0 [105, 49] [(5,12)], Op.blk 1 [105, 49] [(2,20),(3,21)],
-     Op.compact false 2 false] := by
-  let acc3 : List Op := [Op.blk 0 [105, 49] [(1,10),(2,11)], Op.blk 0 [105, 49] [(5,12)], Op.blk 1 [105, 49] [(2,20),(3,21)]]
-  have hs : (step (step (step init (Op.blk 0 [105, 49] [(1,10),(2,11)])).1 (Op.blk 0 [105, 49] [(5,12)])).1
-      (Op.blk 1 [105, 49] [(2,20),(3,21)])).1 = acc3.reverse := by decide
-  refine ⟨trivial, trivial, trivial, ?_, trivial⟩
-  show (2 = 0 ∨ 2 > 100000) ∨ GoodAt (step (step (step init _).1 _).1 _).1.reverse false 2
+     Op.del 1 [[105, 49]] 3 9, Op.cw [105, 49] [(4,1),(1,2),(4,3)],
+     Op.compact false 2 false, Op.snap 1] := by
+  let acc : List Op := [Op.blk 0 [105, 49] [(1,10),(2,11)], Op.blk 0 [105, 49] [(5,12)],
+    Op.blk 1 [105, 49] [(2,20),(3,21)], Op.del 1 [[105, 49]] 3 9, Op.cw [105, 49] [(4,1),(1,2),(4,3)]]
+  have hs : (step (step (step (step (step init (Op.blk 0 [105, 49] [(1,10),(2,11)])).1 (Op.blk 0 [105, 49] [(5,12)])).1
+      (Op.blk 1 [105, 49] [(2,20),(3,21)])).1 (Op.del 1 [[105, 49]] 3 9)).1 (Op.cw [105, 49] [(4,1),(1,2),(4,3)])).1
+      = acc.reverse := by decide
+  refine ⟨trivial, trivial, trivial, trivial, trivial, ?_, trivial, trivial⟩
+  show (2 = 0 ∨ 2 > 100000) ∨ GoodAt (step (step (step (step (step init _).1 _).1 _).1 _).1 _).1.reverse false 2
   rw [hs, List.reverse_reverse]
   right
   refine ⟨?_, ?_, ?_⟩
   · intro k
-    have hf : fileIds acc3 = [0, 1] := by decide
+    have hf : fileIds acc = [0, 1] := by decide
     simp only [blocksOfKey, hf, List.flatMap_cons, List.flatMap_nil, List.append_nil, List.length_append]
-    have h0 := ptsOf_length_le 0 k acc3
-    have h1 := ptsOf_length_le 1 k acc3
-    have : acc3.length = 3 := rfl
+    have h0 := ptsOf_length_le 0 k acc
+    have h1 := ptsOf_length_le 1 k acc
+    have : acc.length = 5 := rfl
     omega
   · intro f k pts h
-    simp [acc3] at h
+    simp [acc] at h
     rcases h with ⟨_, _, rfl⟩ | ⟨_, _, rfl⟩ | ⟨_, _, rfl⟩ <;> simp
-  · exact ⟨[[([105, 49], ⟨1, 2, [(1,10),(2,20)]⟩), ([105, 49], ⟨3, 5, [(3,21),(5,12)]⟩)]], by decide⟩
+  · exact ⟨[[([105, 49], ⟨1, 2, [(1,10),(2,20)]⟩), ([105, 49], ⟨5, 5, [(5,12)]⟩)]], by decide⟩
 
 /-! ### where the statement fails -/
 
